@@ -148,9 +148,8 @@ Definition c10_ast (t : table) : table :=
   [Str "domc"; bstr (C10_dom_count tg orc G)] ::
   [Str "domt"; bstr (C10_dom_text tg orc G)] ::
   (if rc_nonIri_answer tg orc G then [[Str "rc"; Str "nonIri_answer"]] else []) ++
-  (if rc_prefixed_label tg then [[Str "rc"; Str "prefixed_label"]] else []) ++
-  (if rc_at_in_item tg fmt then [[Str "rc"; Str "at_in_item"]] else []) ++
-  (if rc_repeated_answer tg orc G then [[Str "rc"; Str "repeated_answer"]] else []) ++
+  (if rc_at_in_label tg fmt then [[Str "rc"; Str "at_in_label"]] else []) ++
+  (if rc_repeated_statement G then [[Str "rc"; Str "repeated_statement"]] else []) ++
   (if rc_tau_literal tg G then [[Str "rc"; Str "tau_literal"]] else []) ++
   (if rc_same_shape_name tg G then [[Str "rc"; Str "same_shape_name"]] else []) ++
   enc_tspec sp ++ enc_denotation tg orc G ++ enc_outcome (run orc sp G).
